@@ -27,29 +27,37 @@ import vlib
 PID = "C12"
 STYLES = ("use", "useas", "from", "fromas")
 FORMS = ("rel-plain", "root-plain", "rel-folder", "root-folder", "bare-root")
-TWIN_KINDS = ("drop-import", "unqualified", "alias-bypass", "wrong-namespace", "unknown-namespace")
+TWIN_KINDS = ("drop-import", "unqualified", "alias-bypass", "wrong-namespace", "unknown-namespace",
+              "chain-skip", "chain-reversed", "chain-unknown-hop", "chain-foreign-hop")
 WORKERS = 6
+# the two file trees (constants of the specification): name -> (MC cfg, trace cfg, number of base programs)
+MODELS = {"A": ("MC_Modules.cfg", "Trace_Modules.cfg", 4), "B": ("MC_ModulesB.cfg", "Trace_ModulesB.cfg", 2)}
+# tree B: where the std module name sits in the paths that name the file
+STD_POS = {"geometry/math.sy": "last-component", "util/list.sy": "last-component", "set/b.sy": "first-folder",
+           "sub/dict/c.sy": "inner-folder", "vendor/set/exports.sy": "exports-folder"}
 
 
 def cid(c):
     return (c["p"], c["m"], c["v"])
 
 
-def emit(wd, nv, seed, only=None, name="emit"):
+def emit(wd, nv, seed, model, only=None, name="emit"):
     env = {"NV": nv, "SEED": seed}
     if only:
         env.update({"ONLY": "1", "ONLY_P": only[0], "ONLY_M": only[1], "ONLY_V": only[2]})
     # no -coverage: the cost instrumentation of the recursive evaluator (SyltSem) exhausts the heap
-    r = vlib.tlc("MC_Modules", wd=wd, env=env, tags=("REPLAY", "PROG"), workers=WORKERS, timeout=2400, xmx="12g",
-                 coverage=False, out_file=os.path.join(wd, "tlc-%s.out" % name))
-    vlib.require_tlc_ok(r, "SyltModules universe (MC_Modules)")
+    r = vlib.tlc("MC_Modules", cfg=MODELS[model][0], wd=wd, env=env, tags=("REPLAY", "PROG"), workers=WORKERS, timeout=2400, xmx="12g",
+                 coverage=False, out_file=os.path.join(wd, "tlc-%s-%s.out" % (name, model)))
+    vlib.require_tlc_ok(r, "SyltModules universe (MC_Modules, tree %s)" % model)
     progs = {p["p"]: p for (t, p) in r.records if t == "PROG"}
     cases = {}
     for (t, c) in r.records:
         if t == "REPLAY":
             cases[cid(c)] = c        # an action conjunct may be evaluated twice: dedupe
     cases = [cases[key] for key in sorted(cases)]
-    if len(progs) != 4 or not cases:
+    for c in cases:
+        c["tree"] = model
+    if len(progs) != MODELS[model][2] or not cases:
         vlib.tool_error("MC_Modules printed %d programs and %d configurations" % (len(progs), len(cases)))
     if r.distinct != 2 * len(cases):
         vlib.tool_error("MC_Modules explored %d states but printed %d configurations" % (r.distinct, len(cases)))
@@ -65,8 +73,8 @@ def record(wd, progs, cases, name, env=None):
     return tf, ff
 
 
-def validate(wd, name, trace, universe, nv, seed, nrec):
-    r = vlib.tlc("Trace_Modules", wd=wd, workers=WORKERS, timeout=3000, xmx="12g",
+def validate(wd, name, trace, universe, nv, seed, nrec, model):
+    r = vlib.tlc("Trace_Modules", cfg=MODELS[model][1], wd=wd, workers=WORKERS, timeout=3000, xmx="12g",
                  env={"TRACE": trace, "UNIVERSE": universe, "NV": nv, "SEED": seed}, tags=("REJECT",), coverage=False,
                  out_file=os.path.join(wd, "tlc-%s.out" % name))
     vlib.require_tlc_ok(r, "Trace_Modules/" + name)
@@ -82,8 +90,8 @@ def signature(case, why):
         tw = [t for t in case["twins"] if t["kind"] == kind][0]
         return "C12|%s|style=%s|path=%s|item=%s" % (why, tw["st"], tw["form"], tw["itemkind"])
     styles = ",".join(sorted({e["st"] for e in case["edges"]}))
-    return "C12|%s|prog=%s|styles=%s|cycle=%d|diamond=%d|decoys=%d" % (
-        why, case["prog"], styles, case["cycle"], case["diamond"], case["decoy"])
+    return "C12|%s|tree=%s|prog=%s|styles=%s|cycle=%d|diamond=%d|decoys=%d" % (
+        why, case["tree"], case["prog"], styles, case["cycle"], case["diamond"], case["decoy"])
 
 
 def describe(case, full, why):
@@ -97,7 +105,7 @@ def describe(case, full, why):
 
 
 def replay_obj(case, full, prog):
-    return {"p": case["p"], "m": case["m"], "v": case["v"], "program": case["prog"],
+    return {"tree": case["tree"], "p": case["p"], "m": case["m"], "v": case["v"], "program": case["prog"],
             "expected": {"prints": prog["prints"], "status": prog["status"], "load": case["load"]},
             "files": full["files"], "observed": {k: full[k] for k in ("class", "error", "prints", "status", "reads")},
             "twins": full["twins"], "case": case}
@@ -111,7 +119,7 @@ def judge(cases, fulls, progs, rejects, verdicts):
             verdicts.add(signature(case, why), describe(case, full, why), replay_obj(case, full, pmap[case["p"]]))
 
 
-def corrupt_controls(wd, recs, cases, rejects, nv, seed):
+def corrupt_controls(wd, recs, cases, rejects, nv, seed, model):
     """(a) corrupt observations of conforming records: TLC must reject exactly those, for the expected reason."""
     good = [i for i in range(len(recs)) if (i + 1) not in rejects and cases[i]["edges"]]
     picked = good[::max(1, len(good) // 90)]
@@ -142,7 +150,7 @@ def corrupt_controls(wd, recs, cases, rejects, nv, seed):
         want[len(out)] = [w]
     path = os.path.join(wd, "neg-corrupt.ndjson")
     vlib.write_ndjson(path, out)
-    _, got = validate(wd, "neg-corrupt", path, "part", nv, seed, len(out))
+    _, got = validate(wd, "neg-corrupt", path, "part", nv, seed, len(out), model)
     if got != want or len({w[0].split(":")[0] for w in want.values()}) < 6:
         bad = [k for k in want if got.get(k) != want[k]]
         vlib.tool_error("negative control accepted: %d of %d corrupted observations were not rejected as expected (e.g. record %s: want %s got %s)" % (
@@ -150,12 +158,12 @@ def corrupt_controls(wd, recs, cases, rejects, nv, seed):
     return len(want)
 
 
-def stub_control(wd, progs, cases, rejects, nv, seed):
+def stub_control(wd, progs, cases, rejects, nv, seed, model):
     """(b) an implementation in which a dropped import stays visible: every drop-import twin must be flagged."""
     sub = [c for i, c in enumerate(cases) if (i + 1) not in rejects and any(t["kind"] == "drop-import" for t in c["twins"])]
     sub = sub[::max(1, len(sub) // 150)]
     tf, _ = record(wd, progs, sub, "neg-stub", env={"C12_STUB": "autoimport"})
-    _, got = validate(wd, "neg-stub", tf, "part", nv, seed, len(sub))
+    _, got = validate(wd, "neg-stub", tf, "part", nv, seed, len(sub), model)
     ok = [k for k in range(1, len(sub) + 1) if got.get(k) == ["twin-ok:drop-import"]]
     if not sub or len(ok) != len(sub):
         vlib.tool_error("negative control accepted: stub with visible dropped imports: %d of %d cases rejected" % (len(ok), len(sub)))
@@ -176,9 +184,24 @@ def vacuity(cases, recs, rejects, conforming_only):
             bump("style:" + e["st"])
             bump("form:" + e["form"])
             bump("style:%s/prog:%s" % (e["st"], c["prog"]))
+            if e["st"].startswith("chain"):
+                parts = e["ns"].split(".")
+                bump("chain-hop:" + ("all-aliased" if all(x.startswith("ns") for x in parts) else
+                                     "all-implicit" if not any(x.startswith("ns") for x in parts) else "mixed"))
+            if c["tree"] == "B" and e["g"] in STD_POS:
+                bump("std:%s/%s" % (STD_POS[e["g"]], e["st"]))
+                if not e["via"]:
+                    bump("std:%s/%s" % (STD_POS[e["g"]], e["form"]))
+                for h in e["via"]:
+                    if h in STD_POS:
+                        bump("std-chain-through:" + STD_POS[h])
+                if c["prog"] == "shadow" and e["g"] == "geometry/math.sy" and e["st"] in ("use", "useas", "chain2", "chain3"):
+                    bump("shadow:std-named-global-through-namespace")
+                if c["prog"] == "shadow" and e["g"] == "geometry/math.sy" and e["st"] in ("from", "fromas"):
+                    bump("shadow:std-named-global-from-import")
         for t in c["twins"]:
             bump("twin:" + t["kind"])
-        for flag in ("cycle", "diamond", "decoy", "cyc"):
+        for flag in ("cycle", "diamond", "decoy", "cyc", "chain", "chaincycle"):
             if c[flag]:
                 bump(flag)
         if c["cycle"] and not c["cyc"]:
@@ -200,9 +223,14 @@ def vacuity(cases, recs, rejects, conforming_only):
             bump("mixed-styles-one-file-pair")
     need = ["style:" + s for s in STYLES] + ["form:" + f for f in FORMS] + ["twin:" + k for k in TWIN_KINDS] + \
            ["cycle", "natural-cycle", "cyc", "diamond", "decoy", "single-file", "main-imported", "mixed-styles-one-file-pair"] + \
+           ["style:chain2", "style:chain3", "chaincycle", "chain-hop:all-aliased", "chain-hop:all-implicit", "chain-hop:mixed"] + \
+           ["std:%s/%s" % (pos, st) for pos in sorted(set(STD_POS.values())) for st in STYLES[1:] + ("chain2", "chain3")] + \
+           ["std:first-folder/use", "std:inner-folder/use", "std:exports-folder/rel-folder", "std:exports-folder/root-folder",
+            "std:last-component/rel-plain", "std:last-component/root-plain", "std-chain-through:last-component",
+            "shadow:std-named-global-through-namespace", "shadow:std-named-global-from-import"] + \
            ["multi-name-from:" + l for l in ("plain", "paren", "multi")] + ["from-with-alias:" + l for l in ("plain", "paren", "multi")] + \
-           ["prog:" + p for p in ("calls", "cell", "types", "init")] + \
-           ["style:%s/prog:%s" % (s, p) for s in STYLES for p in ("calls", "cell", "types", "init")]
+           ["prog:" + p for p in ("calls", "cell", "types", "init", "shadow")] + \
+           ["style:%s/prog:%s" % (s, p) for s in STYLES + ("chain2",) for p in ("calls", "cell", "types", "init", "shadow")]
     missing = [k for k in need if cnt.get(k, 0) == 0]
     if missing:
         vlib.tool_error("vacuity: never exercised in %s configuration: %s" % (
@@ -211,7 +239,7 @@ def vacuity(cases, recs, rejects, conforming_only):
 
 
 def sample_of(case, full):
-    return {"program": case["prog"], "placement": case["m"], "variant": case["v"], "files": full["files"],
+    return {"tree": case["tree"], "program": case["prog"], "placement": case["m"], "variant": case["v"], "files": full["files"],
             "prints": full["prints"], "status": full["status"], "reads": {r["path"]: r["n"] for r in full["reads"]},
             "twins": [{"kind": t["kind"], "file": t["file"], "item": t["item"], "result": t["class"]} for t in full["twins"]]}
 
@@ -222,15 +250,16 @@ def run(ctx):
     ev = vlib.Evidence(PID, tier, "model_checking")
     verdicts = vlib.Verdicts(PID)
     vlib.build_harness(["c12"])
-    seed = ctx.seed % 32
+    seed = ctx.seed % 64
     nv = 1 if tier == "quick" else 8
 
     if ctx.replay:
         rp = json.load(open(ctx.replay))["replay"]
-        r, progs, cases = emit(wd, 1, 0, only=(rp["p"], rp["m"], rp["v"]), name="replay-emit")
+        model = rp.get("tree", "A")
+        r, progs, cases = emit(wd, 1, 0, model, only=(rp["p"], rp["m"], rp["v"]), name="replay-emit")
         tf, ff = record(wd, progs, cases, "replay")
         fulls = vlib.read_ndjson(ff)
-        v, rejects = validate(wd, "replay", tf, "part", 1, 0, len(cases))
+        v, rejects = validate(wd, "replay", tf, "part", 1, 0, len(cases), model)
         for path, text in fulls[0]["files"].items():
             print("----- %s\n%s" % (path, text))
         print("observed: %s" % json.dumps({k: fulls[0][k] for k in ("class", "error", "prints", "status")}))
@@ -247,61 +276,89 @@ def run(ctx):
         if fn.endswith(".json"):
             os.remove(os.path.join(rdir, fn))
 
-    # 1. the specification and its universe
-    r, progs, cases = emit(wd, nv, seed)
-    nplace = sum(p["nplaces"] for p in progs)
-    if len({(c["p"], c["m"]) for c in cases}) != nplace:
-        vlib.tool_error("the emitted configurations cover %d placements, the universe has %d" % (
-            len({(c["p"], c["m"]) for c in cases}), nplace))
+    cases, recs, fulls, rejects, progs_all, per_model = [], [], [], {}, [], {}
+    states = transitions = nplace = 0
+    t_emit = t_val = 0.0
+    for model in sorted(MODELS):
+        # 1. the specification and its universe
+        r, progs, mcases = emit(wd, nv, seed, model)
+        np_ = sum(p["nplaces"] for p in progs)
+        if len({(c["p"], c["m"]) for c in mcases}) != np_:
+            vlib.tool_error("tree %s: the emitted configurations cover %d placements, the universe has %d" % (
+                model, len({(c["p"], c["m"]) for c in mcases}), np_))
+        # 2. conformance run, 3. judged by TLC
+        tf, ff = record(wd, progs, mcases, "cross-" + model)
+        mrecs, mfulls = vlib.read_ndjson(tf), vlib.read_ndjson(ff)
+        if len(mrecs) != len(mcases):
+            vlib.tool_error("harness recorded %d of %d configurations" % (len(mrecs), len(mcases)))
+        v, mrej = validate(wd, "cross-" + model, tf, "cross", nv, seed, len(mrecs), model)
+        judge(mcases, mfulls, progs, mrej, verdicts)
+        per_model[model] = {"progs": progs, "cases": mcases, "recs": mrecs, "rejects": mrej}
+        for k, w in mrej.items():
+            rejects[len(cases) + k] = w
+        cases += mcases
+        recs += mrecs
+        fulls += mfulls
+        progs_all += [dict(p, tree=model) for p in progs]
+        states += r.distinct + v.distinct
+        transitions += r.generated + v.generated
+        nplace += np_
+        t_emit += r.wall_s
+        t_val += v.wall_s
 
-    # 2. conformance run, 3. judged by TLC
-    tf, ff = record(wd, progs, cases, "cross")
-    recs, fulls = vlib.read_ndjson(tf), vlib.read_ndjson(ff)
-    if len(recs) != len(cases):
-        vlib.tool_error("harness recorded %d of %d configurations" % (len(recs), len(cases)))
-    v, rejects = validate(wd, "cross", tf, "cross", nv, seed, len(recs))
-    judge(cases, fulls, progs, rejects, verdicts)
     vacuity(cases, recs, rejects, False)         # the universe contains every shape ...
     # ... and every shape was accepted and conformed; when records were rejected their absence from the conforming set is
     # explained by the VIOLATION / KNOWN-FINDING lines below, not by a vacuous universe
     cnt = vacuity(cases, recs, rejects, not verdicts.violations)
 
-    # 4. negative controls
-    nconf = sum(1 for i in range(len(recs)) if (i + 1) not in rejects and cases[i]["edges"])
+    # 4. negative controls (on tree A)
+    ma = per_model["A"]
+    nconf = sum(1 for i in range(len(ma["recs"])) if (i + 1) not in ma["rejects"] and ma["cases"][i]["edges"])
     if verdicts.violations and nconf < 200:
         n_a = n_b = 0        # (nearly) nothing conforms: there is no conforming record to corrupt; the violations are reported
     else:
-        n_a = corrupt_controls(wd, recs, cases, rejects, nv, seed)
-        n_b = stub_control(wd, progs, cases, rejects, nv, seed)
+        n_a = corrupt_controls(wd, ma["recs"], ma["cases"], ma["rejects"], nv, seed, "A")
+        n_b = stub_control(wd, ma["progs"], ma["cases"], ma["rejects"], nv, seed, "A")
 
     ntwins = sum(len(c["twins"]) for c in cases)
     multi = [i for i, c in enumerate(cases) if len(c["files"]) > 1]
     distinct = len({vlib.sha(fulls[i]["files"]) for i in multi if (i + 1) not in rejects})
-    pick = [multi[0], multi[len(multi) // 3], multi[(2 * len(multi)) // 3]] + \
-           [i for i in multi if cases[i]["diamond"]][:1] + [i for i in multi if cases[i]["decoy"] and cases[i]["cycle"]][:1]
-    ev.set(states=r.distinct + v.distinct, transitions=r.generated + v.generated,
+    pick = [multi[0], multi[len(multi) // 3]] + \
+           [i for i in multi if cases[i]["diamond"]][:1] + [i for i in multi if cases[i]["decoy"] and cases[i]["cycle"]][:1] + \
+           [i for i in multi if cases[i]["chaincycle"]][:1] + \
+           [i for i in multi if any(e["st"] == "chain3" for e in cases[i]["edges"])][:1] + \
+           [i for i in multi if cases[i]["tree"] == "B" and cases[i]["prog"] == "shadow"
+            and any(e["g"] == "geometry/math.sy" and e["st"] == "useas" for e in cases[i]["edges"])][:1]
+    ev.set(states=states, transitions=transitions,
            traces_validated_against_impl=len(recs), programs=len(recs) + ntwins, evaluations=len(recs) + ntwins,
            distinct_nontrivial=distinct, configurations=len(cases), placements=nplace, negative_twins=ntwins,
-           variants_per_placement=nv, base_programs={p["name"]: {"expected_prints": p["prints"], "status": p["status"],
-                                                                 "placements": p["nplaces"]} for p in progs},
-           exercised=cnt, rejected_records=len(rejects), tlc_emit_wall_s=round(r.wall_s, 1), tlc_validate_wall_s=round(v.wall_s, 1),
+           variants_per_placement=nv,
+           base_programs={"%s/%s" % (p["tree"], p["name"]): {"expected_prints": p["prints"], "status": p["status"],
+                                                            "placements": p["nplaces"]} for p in progs_all},
+           trees={m: per_model[m]["progs"][0]["tree"] for m in per_model},
+           exercised=cnt, rejected_records=len(rejects), tlc_emit_wall_s=round(t_emit, 1), tlc_validate_wall_s=round(t_val, 1),
            spec_invariants=["PathsOK", "ProgramsOK", "ConfigOK = UniqueNames /\\ RefsResolve /\\ NotImportedInvisible /\\ LoadOnce /\\ ImportsExist"],
            negative_controls_rejected=n_a + n_b,
            negative_controls={"corrupted_observations_rejected": n_a, "stub_visible_dropped_imports_rejected": n_b},
            exhaustive=(tier == "thorough"),
-           exhaustive_scope="all placements of every base program's globals over the 6-file tree (<= 3 files besides main.sy); "
-                            "thorough: 8 of the 32 variants per placement, quick: 1 (seed-dependent)",
-           rule="configuration = base program (4) x placement of its 3-4 non-start globals in the tree (all %d) x variant (style "
-                "offset and stride over use / use-as / from / from-as per cross-file reference, relative or rooted or folder or bare-/ "
-                "path, back-imports forming cycles, same-named decoys), index-addressed by SyltModules!Derive; a configuration is "
-                "non-trivial when it has >= 2 files and was accepted and conformed; distinct = distinct rendered file sets" % nplace,
+           exhaustive_scope="all placements of every base program's globals over each 6-file tree (<= 3 files besides main.sy); "
+                            "thorough: 8 of the 64 variants per placement, quick: 1 (seed-dependent)",
+           rule="configuration = tree (A: siblings / sub-folders / two exports.sy; B: std module names as file name, folder names and "
+                "exports folder) x base program (A: 4, B: 2) x placement of its 3-4 non-start globals in the tree (all %d) x variant "
+                "(style offset and stride over use / use-as / from / from-as per cross-file reference, namespace chains of depth 2 and 3, "
+                "relative or rooted or folder or bare-/ path, back-imports forming cycles, same-named decoys), index-addressed by "
+                "SyltModules!Derive; a configuration is non-trivial when it has >= 2 files and was accepted and conformed; "
+                "distinct = distinct rendered file sets" % nplace,
            samples=[sample_of(cases[i], fulls[i]) for i in pick],
            known_findings_hit=verdicts.known_hits)
     ev.assume("SyltSem (TLA+) is the reference for what a base program does; minilua stands in for Lua 5.3",
               "the documented mapping: path relative to the importing file, leading / = directory of the file being run, trailing / = "
-              "that folder's exports.sy, bare / = the root's exports.sy, implicit namespace = last path component",
-              "out of the universe: from-importing a name the other file only imported, access through a namespace to what that file "
-              "only imported (a.b.x / re-export), `use /` without alias, path texts with a .sy suffix",
+              "that folder's exports.sy, bare / = the root's exports.sy, implicit namespace = last path component; a namespace chain "
+              "a.b.x is followed left to right through the namespaces each file itself introduces (tests/import)",
+              "a path text of two or more components names a project file whatever its components are called; one-component texts that "
+              "are std module names are never written (whether a project file shadows the std module is not documented)",
+              "out of the universe: from-importing a name the other file only imported, a.x where a only from-imported x (re-export), "
+              "`use /` without alias, path texts with a .sy suffix",
               "import statements are written at the start or at the end of a file; twins are judged by compile result only")
     rc = verdicts.finish()
     ev.violations = len(verdicts.violations)
